@@ -63,7 +63,8 @@ class Models:
                 r = self.e.record(c)
             except Unsupported:
                 continue
-            for b in self.e.ast.bases_of(r):
+            # a handler for Base& catches a Derived object only through an accessible (public) base
+            for b in self.e.ast.public_bases_of(r):
                 work.append(TY.parse(b).name or b)
         return False
 
@@ -735,26 +736,37 @@ class Models:
         e = self.e
         name = rd.get('name')
         b = e.rv(args[0], st, fr); en = e.rv(args[1], st, fr); pred = e.rv(args[2], st, fr)
-        if not (isinstance(b, Iter) and isinstance(en, Iter) and b.cty.kind == 'vector' and isinstance(pred, Closure)):
+        over_set = isinstance(b, Rec) and b.t == 'setiter' and isinstance(en, Rec) and en.t == 'setiter'
+        if not (isinstance(pred, Closure) and (over_set or (isinstance(b, Iter) and isinstance(en, Iter) and b.cty.kind == 'vector'))):
             raise Unsupported('std::%s form at %s' % (name, e.where(n, fr)))
         k = e.fresh(name + '.k', I)
         r = e.fresh(name + '.result', B)
         s2 = st.clone()
-        s2.pc.append(z3.And(k >= b.idx, k < en.idx))
-        ety = b.cty.args[0]
-        arg = ElemLV(b.vref, k, ety) if e.is_value_type(ety) else e.vec_read(s2, b.vref, k, ety)
+        if over_set:
+            # the whole edge set (begin .. end): an arbitrary stored edge
+            sref = b.f['ref']
+            inrange = self.eset_member(st, sref, k)
+            s2.pc.append(inrange)
+            arg = ElemLV(sref, k, TY.parse('edge'))
+        else:
+            inrange = z3.And(k >= b.idx, k < en.idx)
+            s2.pc.append(inrange)
+            ety = b.cty.args[0]
+            arg = ElemLV(b.vref, k, ety) if e.is_value_type(ety) else e.vec_read(s2, b.vref, k, ety)
         pv = e.call_closure_values(pred, [arg], s2, fr, n)
         if isinstance(pv, LVS) and not isinstance(pv, ObjLV): pv = e.load(s2, pv)
         pv = e.as_bool(pv)
-        inrange = z3.And(k >= b.idx, k < en.idx)
         for key, arr in s2.heap.items():
             o = st.heap.get(key)
             if o is not None and not (o is arr or o.eq(arr)) and not key.startswith('vec.epoch'):
                 raise Unsupported('std::%s with a predicate that writes %s at %s' % (name, key, e.where(n, fr)))
         e.absorb_pure(st, s2, inrange)
         fact = {'all_of': z3.Implies(r, pv), 'any_of': z3.Implies(z3.Not(r), z3.Not(pv)), 'none_of': z3.Implies(r, z3.Not(pv))}[name]
+        # the predicate has no side effect, so its value on element j is the value computed for the arbitrary element k with k := j
+        st.pc.append(QForall(lambda j: z3.substitute(z3.Implies(inrange, fact), (k, j)), 1, 'std::%s: the result bounds the predicate on every element' % name, [r]))
         st.pc.append(z3.Implies(inrange, fact))
-        self.used('std::all_of/any_of/none_of: result related to the predicate on one arbitrary element of the range')
+        st.ghost['last_%s' % name] = r
+        self.used('std::all_of/any_of/none_of: result related to the (side-effect free) predicate on every element of the range')
         return r
     fn_any_of = fn_all_of
     fn_none_of = fn_all_of
